@@ -701,6 +701,25 @@ def ring_zero(d, extra_relations=()):
     (s^2 + c^2 = 1), the square roots (w^2 = radicand) and all other non-polynomial atoms taken
     as indeterminates?  Ideal membership by Groebner reduction of the numerator.  True => zero
     wherever the denominators do not vanish; False => not decided."""
+    def canon(x):
+        """same value => same atom: expand the arguments of every (inverse) trigonometric function, bottom-up"""
+        if not isinstance(x, sp.Basic) or not x.args:
+            return x
+        args = [canon(a) for a in x.args]
+        if isinstance(x, (sp.sin, sp.cos, sp.tan)) and args[0].has(sp.Mod):
+            # sin / cos are 2 pi periodic: c * Mod(a, m) with c*m a multiple of 2 pi may drop the Mod
+            a0 = args[0]
+            for md in a0.atoms(sp.Mod):
+                c = sp.expand(a0).coeff(md)
+                if c != 0 and sp.simplify(c * md.args[1] / (2 * sp.pi)).is_integer:
+                    a0 = a0.xreplace({md: md.args[0]})
+            args = [a0]
+        if isinstance(x, (sp.sin, sp.cos, sp.tan, sp.acos, sp.asin, sp.atan)):
+            return x.func(sp.expand(args[0]))
+        return x.func(*args)
+
+    d = canon(d)
+    extra_relations = [canon(r_) for r_ in extra_relations]
     e = sp.expand_trig(d)
     e = sp.together(e)
     num, den = sp.fraction(e)
@@ -753,6 +772,37 @@ def ring_zero(d, extra_relations=()):
         return rem == 0
     except Exception:
         return False
+
+
+def ring_decide(d, extra_relations=(), boxes=None, hyps=(), seed=0, n=40):
+    """True: d == 0 by ideal membership.  (False, witness): a point (satisfying hyps) where d != 0 numerically
+    (40-digit mpmath) -- a genuine refutation.  None: not decided (membership failed, numerically zero everywhere sampled)."""
+    try:
+        if ring_zero(d, extra_relations):
+            return True
+    except Exception:
+        pass
+    rnd = random.Random(seed)
+    syms = sorted(d.free_symbols | set().union(*[h.free_symbols for h in hyps]) if hyps else d.free_symbols, key=lambda s: s.name)
+    boxes = boxes or {}
+    for _ in range(n * 10):
+        env = {}
+        for s in syms:
+            lo, hi = boxes.get(s, boxes.get(s.name, (0.1, 2.0)))
+            env[s] = lo + (hi - lo) * rnd.random()
+        try:
+            if hyps and not all(neval(h, env) for h in hyps):
+                continue
+            v = neval(d, env)
+        except (ValueError, ZeroDivisionError, KeyError):
+            continue
+        n -= 1
+        scale = 1 + sum(abs(neval(a, env)) for a in (d.args if isinstance(d, sp.Add) else [d]))
+        if abs(v) > mpmath.mpf(10) ** (-20) * scale:
+            return False, {s.name: float(x) for s, x in env.items()}
+        if n <= 0:
+            break
+    return None
 
 
 def subst_defs(hyps, e):
